@@ -94,6 +94,11 @@ impl JoinedTableData {
         let joiner_on_column_index = joiner_table.index_for(joiner_column)
             .ok_or_else(|| ExecutionError::ColumnNotFound(joiner_column.to_owned()))?;
         let joiner_on_value = &joined_row.columns[joiner_on_column_index];
+        if joiner_on_value.is_null() {
+            // NULL is not equal to anything, in particular not to a NULL key of the joined table
+            return Ok(None);
+        }
+
         Ok(self.rows.get(joiner_on_value))
     }
 }
